@@ -953,7 +953,10 @@ def _mask(sig, num_args, hide_args, hide_kwargs,
             else:
                 src.pop(kwarg_name, None)
             if varargs:
-                src.pop(varargs.name, None)
+                if varargs.name not in kwoargs:
+                    # (a keyword absorbed by **kwargs may be spelled like
+                    # the *args parameter: that entry is the keyword's)
+                    src.pop(varargs.name, None)
                 varargs = None
             for p in [param] + conv_kwoargs:
                 pokargs_by_name.pop(p.name, None)
